@@ -58,7 +58,7 @@ func (s c01Spec) newState() eng.SeqState {
 			w.SeedReplay(map[uint32][]model.Write{
 				5:         {{Col: "o", V: model.Val{N: 1}}, {Col: "v", V: model.Val{S: "s0"}}},
 				16384 + 7: {{Col: "o", V: model.Val{N: 1}}, {Col: "v", V: model.Val{S: "s1"}}},
-				32768 + 9: {{Col: "o", V: model.Val{N: 1}}, {Col: "v", V: model.Val{S: "s2"}}},
+				32768 + 5: {{Col: "o", V: model.Val{N: 1}}, {Col: "v", V: model.Val{S: "s2"}}},
 			})
 		}
 	} else {
